@@ -260,6 +260,16 @@ pub fn c14(ctx: &mut Ctx) {
         check_prog(ctx, &format!("binary shl0 {}", n), &strip(app(binary::shl0(), bi(n))), &bi(2 * n), &ALL4);
         check_prog(ctx, &format!("binary shl1 {}", n), &strip(app(binary::shl1(), bi(n))), &bi(2 * n + 1), &ALL4);
         check_prog(ctx, &format!("binary strip {}", n), &strip(bi(n)), &bi(n), &ALL4);
+        // EXACT results (no strip) wherever the documentation does not allow leading zeroes: succ and shl1 always,
+        // shl0 of a non-zero number, pred of a number that is not a power of two (and not zero)
+        check_prog(ctx, &format!("binary succ {} exact", n), &app(binary::succ(), bi(n)), &bi(n + 1), &ALL4);
+        check_prog(ctx, &format!("binary shl1 {} exact", n), &app(binary::shl1(), bi(n)), &bi(2 * n + 1), &ALL4);
+        if n >= 1 {
+            check_prog(ctx, &format!("binary shl0 {} exact", n), &app(binary::shl0(), bi(n)), &bi(2 * n), &ALL4);
+            if !n.is_power_of_two() {
+                check_prog(ctx, &format!("binary pred {} exact", n), &app(binary::pred(), bi(n)), &bi(n - 1), &ALL4);
+            }
+        }
     }
     // the top of the usize range: a 64-bit binary numeral is only 64 applications, so these are cheap in-range inputs
     // (succ of usize::MAX and shl of numbers >= 2^63 are left out: their results are not representable natively)
@@ -447,7 +457,13 @@ pub fn c16(ctx: &mut Ctx) {
             check_prog(ctx, &format!("{} is_nil (cons a x), open a x", en), &app(is_nil, cell), &b(false), &LAZY);
         }
         let cell = app!(cl::cons(), a.clone(), x.clone());
-        check_prog(ctx, "church head (cons a x), open a x", &app(cl::head(), cell), &beta(a.clone(), NOR, 0), &LAZY);
+        check_prog(ctx, "church head (cons a x), open a x", &app(cl::head(), cell.clone()), &beta(a.clone(), NOR, 0), &LAZY);
+        check_prog(ctx, "church is_nil (cons a x), open a x", &app(cl::is_nil(), cell.clone()), &b(false), &LAZY);
+        // KNOWN FINDING (known_findings.json): the property's text asks `tail (cons a x) = x` "also for arbitrary …
+        // tail terms" in all four encodings.  A Church (fold) list can only return a tail that is itself a list; for
+        // x = Var(9) the crate returns a different term.  The negation is a Lean theorem
+        // (C16_tail_cons_church_needs_list); the law for every LIST x is C16_tail_cons_church.
+        check_prog(ctx, "church tail (cons a x), non-list tail x = Var(9)", &app(cl::tail(), cell), &x, &[NOR]);
     }
     // ---- pair-list library
     for v in &lists {
